@@ -230,12 +230,14 @@ func (c *vConn) SetDeadline(t time.Time) error {
 	d := c.d
 	d.mu.Lock()
 	d.rdDeadline = t
-	ms := int64(0)
+	ms, ahead := int64(0), int64(0)
 	if !t.IsZero() {
 		ms = t.Sub(d.start).Milliseconds()
+		// how far ahead of the call itself: never more than what the handler drew, however late the handler was scheduled
+		ahead = time.Until(t).Milliseconds()
 	}
 	d.deadlines = append(d.deadlines, ms)
-	d.logLocked(vEvent{"a": "SetDeadline", "dl": ms})
+	d.logLocked(vEvent{"a": "SetDeadline", "dl": ms, "ahead": ahead})
 	d.mu.Unlock()
 	d.signal()
 	return nil
